@@ -10,6 +10,7 @@ mod event_tasks;
 mod scheduler_tasks;
 mod permissions;
 mod routes;
+mod apply_domain;
 
 fn main() {
     let args: Vec<String> = std::env::args().collect();
@@ -25,6 +26,7 @@ fn main() {
         "scheduler_tasks" => scheduler_tasks::run(&repo),
         "permissions" => permissions::run(&repo),
         "routes" => routes::run(&repo, out),
+        "apply_domain" => apply_domain::run(&repo),
         t => {
             eprintln!("unknown table {t}");
             std::process::exit(2);
